@@ -217,7 +217,10 @@ def case(args) -> dict:
                 out["bad"].append(("differs-from-sequential",
                                    f"{desc}: metadata tree differs from the "
                                    f"one-after-another run", case_))
-            pseq = {sp: D.ids(Dataset(root), sp, "sync") for sp in ref}
+            try:
+                pseq = {sp: D.ids(Dataset(root), sp, "sync") for sp in ref}
+            except Exception as e:  # pylint: disable=broad-except
+                pseq = f"{type(e).__name__}: {str(e)[:120]}"
             if pseq != sseq:
                 out["bad"].append(("order",
                                    f"{desc}: iteration gives {pseq}, the "
@@ -416,7 +419,11 @@ def effect_case(args) -> dict:
                     bad.append(("differs-from-sequential",
                                 "metadata tree differs from the "
                                 "one-after-another run"))
-                pseq = {sp: D.ids(Dataset(root), sp, "sync") for sp in ref}
+                try:
+                    pseq = {sp: D.ids(Dataset(root), sp, "sync")
+                            for sp in ref}
+                except Exception as e:  # pylint: disable=broad-except
+                    pseq = f"{type(e).__name__}: {str(e)[:120]}"
                 if pseq != sseq:
                     bad.append(("order", f"iteration gives {pseq}, the "
                                          f"one-after-another run {sseq}"))
